@@ -114,7 +114,8 @@ func (s *subscriptionsState) DeletePeer(peer uint64) {
 	toDelete := s.filter(func(a api.Subscription) bool { return a.Peer == peer })
 	event := &api.StateBroadcastEvent{Subscriptions: []*api.Subscription{}}
 
-	for _, subscription := range toDelete {
+	for idx := range toDelete {
+		subscription := toDelete[idx]
 		subscription.LastDeleted = now
 		s.set(subscription)
 		event.Subscriptions = append(event.Subscriptions, &subscription)
@@ -133,7 +134,8 @@ func (s *subscriptionsState) DeleteSession(id string) {
 	toDelete := s.filter(func(a api.Subscription) bool { return a.SessionID == id })
 	event := &api.StateBroadcastEvent{Subscriptions: []*api.Subscription{}}
 
-	for _, subscription := range toDelete {
+	for idx := range toDelete {
+		subscription := toDelete[idx]
 		subscription.LastDeleted = now
 		s.set(subscription)
 		event.Subscriptions = append(event.Subscriptions, &subscription)
